@@ -43,7 +43,11 @@ class Timeout(Exception):
     pass
 
 
+_TIMED_OUT = [False]
+
+
 def _alarm(signum, frame):
+    _TIMED_OUT[0] = True          # remembered: a harness-side `except Exception` inside a clause may swallow the exception
     raise Timeout()
 
 
@@ -144,7 +148,11 @@ def run_clause(cl, rng, n, driver, stats, replay_input=None):
         with mp.get_context("fork").Pool(par) as pool:
             obs = pool.map(_par_worker, inputs, chunksize=max(1, len(inputs) // (par * 6)))
     else:
-        obs = [_safe_run(cl, inp) for inp in inputs]
+        obs = []
+        for inp in inputs:
+            obs.append(_safe_run(cl, inp))
+            if _TIMED_OUT[0]:
+                raise Timeout()       # the global time limit fired inside a clause that caught it: infrastructure, not an observation
     # a harness-side time guard (props' own per-call limits) that fires under machine load is not an observation of the
     # implementation: repeat such a case once, serially; only a guard that fires again is kept as the observation
     for i, o in enumerate(obs):
